@@ -20,6 +20,8 @@ import (
 	"github.com/modernizing/coca/pkg/domain/core_domain"
 )
 
+var unusedApps = map[string]*unused.RemoveUnusedImportApp{}
+
 // reusedModel is the process's long-lived model variable: the CLI commands decode every deps.json
 // into one package-level slice, so encoding/json reuses its backing array from run to run.
 var reusedModel []core_domain.CodeDataStruct
@@ -203,12 +205,24 @@ func dispatch(op Op) (interface{}, error) {
 
 	case "unusedImports":
 		var a struct {
-			Dir string `json:"dir"`
+			Dir     string `json:"dir"`
+			SameApp bool   `json:"same_app"`
 		}
 		if err := json.Unmarshal(op.Args, &a); err != nil {
 			return nil, err
 		}
 		// exactly what cmd/refactor.go does after the move step
+		if a.SameApp {
+			// a library user keeping one app value per directory and running it again
+			app, ok := unusedApps[a.Dir]
+			if !ok {
+				app = unused.NewRemoveUnusedImportApp(a.Dir)
+				unusedApps[a.Dir] = app
+			}
+			results := app.Analysis()
+			app.Refactoring(results)
+			return len(results), nil
+		}
 		app := unused.NewRemoveUnusedImportApp(a.Dir)
 		results := app.Analysis()
 		app.Refactoring(results)
@@ -227,6 +241,20 @@ func dispatch(op Op) (interface{}, error) {
 		}
 		app := &goapp.GoIdentApp{}
 		return app.Analysis(string(raw), a.File), nil
+
+	case "writeFile":
+		// harness op: a change of the durable state between two operations of one process
+		var a struct {
+			Path string `json:"path"`
+			Text string `json:"text"`
+		}
+		if err := json.Unmarshal(op.Args, &a); err != nil {
+			return nil, err
+		}
+		if err := os.WriteFile(a.Path, []byte(a.Text), 0644); err != nil {
+			return nil, err
+		}
+		return true, nil
 
 	case "snapshot":
 		// harness op: the state of a directory tree (durable state between operations)
@@ -298,6 +326,7 @@ func dispatch(op Op) (interface{}, error) {
 	case "cli":
 		var a struct {
 			Args []string `json:"args"`
+			Read []string `json:"read"` // files to return right after the command (reports are overwritten by later commands)
 		}
 		if err := json.Unmarshal(op.Args, &a); err != nil {
 			return nil, err
@@ -310,6 +339,13 @@ func dispatch(op Op) (interface{}, error) {
 		if err != nil {
 			res["error"] = err.Error()
 		}
+		files := map[string]string{}
+		for _, f := range a.Read {
+			if b, err := os.ReadFile(f); err == nil {
+				files[f] = string(b)
+			}
+		}
+		res["files"] = files
 		return res, nil
 	}
 	return nil, fmt.Errorf("unknown op %q", op.Op)
